@@ -166,6 +166,17 @@ def check_case(case, acc):
         first.extra_attribute = "changed"
     else:
         del first.children
+    # a fresh node attached below one copied leaf shows up there and nowhere else
+    leaf = next((c for c in copies if not c.children and not isinstance(c, (nodes.SlotLM, nodes.DictLM))), None)
+    if leaf is not None and not isinstance(leaf, (nodes.SlotLM, nodes.DictLM)):
+        fresh = Node("fresh")
+        fresh.parent = leaf
+        problem = mut.consistency_problem(copies + [fresh], forest.Labels(copies + [fresh]))
+        if problem:
+            raise Violation("consistency", "%s: after attaching a new node below a copied leaf: %s" % (ctx, problem))
+        holders = [c for c in copies if any(k is fresh for k in c.children)]
+        if len(holders) != 1 or holders[0] is not leaf:
+            raise Violation("independence", "%s: a node attached below one copied leaf is listed by %d nodes of the copy" % (ctx, len(holders)))
     if full_state(everything) != before:
         raise Violation("independence", "%s: mutating the copy changed the original" % ctx)
     # and the other way round (compare the copy with its state after the first mutation)
